@@ -24,9 +24,9 @@ Theorem C19_debug_release : forall (m : bool) (src : list char),
   s_loop_detected (lr_state (lex (mkCfg true m) src)) = false ->
   lex (mkCfg false m) src = lex (mkCfg true m) src.
 Proof.
-  intros m src. unfold lex. cbn [dbg msep].
-  set (ml := main_loop (S (List.length src)) m (8 * (4 * List.length src) + 64 + 2)%nat).
-  destruct (run true ml (init src)) as [det s1|site s1] eqn:E1; [|cbn; discriminate].
+  intros m src. unfold lex. destruct (split_bom src) as [[bb bc] text]. unfold lex_text. cbn [dbg msep].
+  match goal with |- context [run true ?p (init text)] => set (ml := p) end.
+  destruct (run true ml (init text)) as [det s1|site s1] eqn:E1; [|cbn; discriminate].
   destruct det.
   - cbn [lr_outcome lr_state]. intros _ F. rewrite (run_dbg_release ml _ _ _ E1 F). reflexivity.
   - destruct (run true (finalize_lexing _) s1) as [u s2|site s2] eqn:E2; [|cbn; discriminate].
